@@ -15,7 +15,7 @@ import (
 // C20 — address, port-range and hash-credential parsers.
 //
 //	R1 (c20.go)        validated-value consistency on the go/ssa def-use graph
-//	R2 (c20_sep.go)    printer ⇄ parser separator / field tables (template evaluation)
+//	R2 (c20_sep.go)    printer ⇄ parser separator / field tables (template evaluation; helpers inlined, loop-filled tables resolved)
 //	R4 (c20_subnet.go) subnet / range predicates depend on the operands they must depend on
 func init() { register(&Check{ID: "C20", NeedSSA: true, Run: runC20}) }
 
@@ -48,8 +48,9 @@ func runC20(c *Ctx) {
 		"a length/index/prefix test that only feeds branch conditions; a member is CONSUMED when it (or a value obtained from it by concatenation, slicing, φ or []byte conversion) reaches anything else — a call argument, a return, a store. " +
 		"Rule: no consumed (or non-trivially tested) member may be a strict ancestor of a validated member, i.e. the text that is split/returned is at least as normalised as the text the validation looked at; " +
 		"exempt are uses that provably cannot tell the two apart (strings.Contains/Count with a constant needle made of ASCII non-space non-letter characters, emptiness tests) and diagnostics (fmt.Errorf, errors.New, fmt.Print*, logger.*). " +
-		"(R2 printer ⇄ parser tables) for every struct type T of network/ip that has both a printer (method returning fmt.Sprintf(constant format, fields of T)) and a parser (function from one string to *T): " +
-		"the parser's access path of every field (strings.Split/SplitN/Cut with constant separators and constant indexes, strings.TrimSpace, strconv.ParseUint/ParseInt/Atoi, constructor parameter → field) is evaluated on the printer's format TEMPLATE with verbs as opaque tokens: " +
+		"(R2 printer ⇄ parser tables) for every struct type T of network/ip that has both a printer (method whose returns are texts made of constant literals and fields of T: fmt.Sprintf with a constant format, or concatenation / strconv.Itoa/Format*/Append* / a strings.Builder as modelled by internal/strtmpl; every return that prints a field is one FORM and is checked on its own, a return of a constant is a guard) and a parser (function from one string to *T): " +
+		"the parser's access path of every field (strings.Split/SplitN/Cut or Index/LastIndex + slicing with constant separators and constant indexes, strings.TrimSpace, strconv.ParseUint/ParseInt/Atoi, constructor parameter → field or struct literal; " +
+		"through in-module helpers entered with their parameters bound to the arguments — a helper that parses one piece, cuts the text, or builds the struct — and through tables: an element table[j] of a local array / made slice / append-grown slice filled by a counted loop stands for the value assigned in iteration j, provided the loop starts at 0, reaches j, assigns in every iteration and is left early only to reject) is evaluated on the printer's format TEMPLATE with verbs as opaque tokens: " +
 		"the path must select exactly the verb that prints the same field (separator), the len(parts) constants the parser compares with must include the number of template parts (arity), every literal the printer emits between verbs must be a separator the parser consumes, " +
 		"the numeric base must match the verb (%d↔10, %x↔16) and the bit size must hold the field; every printed field must be parsed. " +
 		"(R4 dependence) IsInSubnet's boolean result must depend (data or control dependence, through in-module callees) on every address field of both operands AND on the subnet operand's prefix-length field " +
